@@ -17,10 +17,11 @@ SCHEMAS = {
             'fields': {'_in_sess': 'Bool', '_in_term': 'Bool', 'is_open': 'Bool', 'object_path': 'Str'}},
     'TAgent': {'pyclass': ('tcpcl.agent', 'Agent'),
                'fields': {'_config': 'Ref[TConfig]', '_in_shutdown': 'Bool', '_handlers': 'List[Ref[Hdl]]',
-                          '_on_stop': 'Opt[Func]'}},
+                          '_path_to_handler': 'Dict[Str, Ref[Hdl]]', '_on_stop': 'Opt[Func]'}},
 }
 
 GHOST = {
+    't_stopped': 'Bool',    # Agent.stop was called
     't6_ok': 'Bool',        # every handler looked at so far was treated as it should be
     't6_sess': 'Bool', 't6_term': 'Bool', 't6_open': 'Bool',     # state of the handler at the beginning of its iteration
 }
@@ -59,12 +60,27 @@ FUNCS = {
     'tcpcl.agent:Agent.stop': dict(
         self='Ref[TAgent]', props=['C09'], trusted=True,
         trusted_reason='closes listening sockets and every handler, leaves the bus: socket and D-Bus library calls',
-        modifies=['Hdl.is_open']),
+        modifies=['Hdl.is_open', 'ghost.t_stopped'],
+        ensures=[('stopped', 'ghost.t_stopped')]),
+    'tcpcl.agent:Agent._unbind_handler': dict(
+        self='Ref[TAgent]', params={'hdl': 'Ref[Hdl]'}, props=['C09', 'C18'],
+        # (called from the handler's on-close callback: the handler is still registered)
+        requires=[('registered', 'contains(self._handlers, hdl) and contains(self._path_to_handler, hdl.object_path)', [])],
+        modifies=['TAgent._handlers', 'TAgent._path_to_handler', 'Hdl.is_open', 'ghost.t_stopped'],
+        ensures=[
+            ('unregistered', 'not contains(self._path_to_handler, hdl.object_path) and '
+                             'length(self._handlers) == length(old(self._handlers)) - 1', ['C09']),
+            # the agent stops once the last connection has closed during shutdown (or when configured to)
+            ('stops_after_the_last_one', 'implies(length(self._handlers) == 0 and (self._in_shutdown or self._config.stop_on_close), '
+                                         'ghost.t_stopped)', ['C09']),
+            ('keeps_running_otherwise', 'implies(not (length(self._handlers) == 0 and (self._in_shutdown or self._config.stop_on_close)), '
+                                        'ghost.t_stopped == old(ghost.t_stopped))', ['C09']),
+        ]),
     'tcpcl.agent:Agent.shutdown': dict(
         self='Ref[TAgent]', returns='Bool', props=['C09'],
         requires=[('starts_clean', 'ghost.t6_ok', [])],
         modifies=['TAgent._in_shutdown', 'Hdl._in_term', 'Hdl.is_open', 'ghost.t6_ok', 'ghost.t6_sess', 'ghost.t6_term',
-                  'ghost.t6_open'],
+                  'ghost.t6_open', 'ghost.t_stopped'],
         loops={0: dict(
             invariant=[('treated_right_so_far', 'ghost.t6_ok')],
             ghost_begin=['ghost.t6_sess = hdl._in_sess\nghost.t6_term = hdl._in_term\nghost.t6_open = hdl.is_open\n'],
@@ -77,6 +93,7 @@ FUNCS = {
             # raises nothing (no exception is declared) and every handler was treated as its state requires
             ('every_session_asked_to_terminate', 'ghost.t6_ok', ['C09']),
             ('marked_shutting_down', 'self._in_shutdown', ['C09']),
+            ('stops_at_once_without_connections', 'implies(length(old(self._handlers)) == 0, ghost.t_stopped and result)', ['C09']),
         ],
     ),
 }
